@@ -28,14 +28,16 @@
 //     reports what it found in RefGraph::padBytes.
 //   * version 2: destinations are 8 bytes wide so no re-alignment is ever
 //     needed, and the documented layout ("32bit max") asks for none. The
-//     library is not consistent here (DESIGN.md section 7): FileGraph::fromMem,
-//     fromArrays and LC_CSR_Graph::readGraphFromGRFile skip one extra 8-byte
-//     word when numEdges is odd, whereas rawBlockSize (allocation size, hence
-//     toFile length), FileGraphWriter::phase1 and partFromFile do not. Both
+//     library used to be inconsistent here (DESIGN.md section 7): before /repo
+//     commit 865c2b1 FileGraph::fromMem, fromArrays and
+//     LC_CSR_Graph::readGraphFromGRFile skipped one extra 8-byte word when
+//     numEdges is odd, whereas rawBlockSize (allocation size, hence toFile
+//     length), FileGraphWriter::phase1 and partFromFile did not; since that
+//     commit every reader and writer uses no padding (V2Pad::None). Both
 //     conventions are implemented:
 //         V2Pad::None   no padding               (documented layout; writers)
 //         V2Pad::Odd8   8 bytes iff numEdges odd (what the in-memory readers
-//                                                 expect)
+//                                                 expected before 865c2b1)
 //     write_gr takes the convention as a parameter (default None). read_gr
 //     does not assume one: it DECODES BY FILE LENGTH. With
 //     base = 32 + 8*numNodes + 8*numEdges and D = sizeofEdgeData*numEdges,
